@@ -39,11 +39,11 @@ var c13Accept = []string{"correct", "other-key", "missing", "truncated"}
 var c13Proto = []string{"none", "requested", "requested-other-case", "not-requested"}
 
 type extVariant struct {
-	val     string
-	ok      bool // acceptable when the client enabled compression
-	dc      bool
-	cnct    bool
-	snct    bool
+	val  string
+	ok   bool // acceptable when the client enabled compression
+	dc   bool
+	cnct bool
+	snct bool
 }
 
 var c13Ext = []extVariant{
@@ -313,11 +313,11 @@ func runC13(r *Run) {
 		opts.HTTPHeader.Set("Sec-WebSocket-Version", "8")
 	}
 	type dialRes struct {
-		c    *websocket.Conn
-		err  error
-		took time.Duration
+		c                *websocket.Conn
+		err              error
+		took             time.Duration
 		pingErr, echoErr error
-		sub  string
+		sub              string
 	}
 	var results []dialRes
 	r.S.Go("dialer", func() {
